@@ -112,12 +112,13 @@ func (e *Eng) encodeFunction(fn *ssa.Function, con *Contract) (res *FnResult) {
 	// vacuity: the preconditions must be satisfiable
 	c.oblige(Item{Guard: "true", Formula: "false", Name: res.Key + "/cover:requires", Class: "cover", Expect: "sat", Pos: token.Position{Filename: con.File, Line: con.Line}, Text: "preconditions are satisfiable"})
 
-	rets := f.encodeBody(f.top, st, "true")
-
 	var rs []Region
 	if con.HasMod && !con.ModAll {
 		rs = f.regions(preEnv(), con.Modifies)
+		f.entryRegions = &rs
 	}
+	rets := f.encodeBody(f.top, st, "true")
+
 	resNames := resultNames(e, res.Key)
 	for ri, r := range rets {
 		cur := r.st
@@ -137,6 +138,15 @@ func (e *Eng) encodeFunction(fn *ssa.Function, con *Contract) (res *FnResult) {
 		f.curPos = r.pos
 		for _, g := range con.Ghost {
 			se := mkEnv()
+			if gc, ok := g.Target.(SCall); ok && gc.Fun == "ghostint" {
+				r := f.region(se, g.Target)
+				v := se.eval(g.Value, types.Typ[types.Int])
+				k := "map:ghost:" + r.Ghost
+				h := f.lazyHeap(cur, k)
+				f.noteWrite(writeRec{Kind: "ghost:" + r.Ghost, Ref: r.Ref})
+				cur.heaps[k] = f.c.define("G", "(Array Int (_ BitVec 64))", sto(h, r.Ref, v.L[0]))
+				continue
+			}
 			a, t := se.addrOfIn(g.Target, true)
 			v := se.eval(g.Value, t)
 			if len(v.L) != f.l.cells(t) {
@@ -215,9 +225,7 @@ func (e *Eng) encodeFunction(fn *ssa.Function, con *Contract) (res *FnResult) {
 					Pos: f.pos(r.pos), Text: en.Text, Replay: f.replayInfo(r.results, cur), Watch: watch, Hyps: hyps})
 			}
 		}
-		if con.HasMod && !con.ModAll {
-			f.mapFrameObligations(r.guard, f.st0, cur, rs, res.Key+"/frame"+suffix, r.pos)
-		}
+		// (maps, like cells, are covered write by write: see writeObligations)
 		// vacuity: this return site must be reachable (otherwise every
 		// obligation at it holds for the wrong reason)
 		if len(rets) > 1 && !con.Unreachable[ri+1] {
@@ -328,11 +336,15 @@ func (f *FnEnc) guardedAccess(fr *Frame, st *State, R string, addr ssa.Value, wr
 		}
 	}
 	stT := derefType(fa.X.Type())
-	named, ok := stT.(*types.Named)
-	if !ok {
-		return
+	var g *guardInfo
+	tname := ""
+	if named, ok := stT.(*types.Named); ok {
+		g = f.eng.guardedFor(named)
+		tname = named.Obj().Name()
+	} else if gl, ok := fa.X.(*ssa.Global); ok {
+		g = f.eng.guarded[gl.Pkg.Pkg.Path()+".var "+gl.Name()]
+		tname = gl.Name()
 	}
-	g := f.eng.guardedFor(named)
 	if g == nil {
 		return
 	}
@@ -370,8 +382,8 @@ func (f *FnEnc) guardedAccess(fr *Frame, st *State, R string, addr ssa.Value, wr
 		kind = "write"
 	}
 	n := f.nextOrd("guarded:" + fname + ":" + kind)
-	f.c.oblige(Item{Guard: R, Formula: cond, Name: f.eng.fnKey(f.fn) + fmt.Sprintf("/guarded:%s.%s:%s#%d", named.Obj().Name(), fname, kind, n), Class: "guarded",
-		Pos: f.pos(fa.Pos()), Text: fmt.Sprintf("%s of %s.%s requires %s held", kind, named.Obj().Name(), fname, g.mu)})
+	f.c.oblige(Item{Guard: R, Formula: cond, Name: f.eng.fnKey(f.fn) + fmt.Sprintf("/guarded:%s.%s:%s#%d", tname, fname, kind, n), Class: "guarded",
+		Pos: f.pos(fa.Pos()), Text: fmt.Sprintf("%s of %s.%s requires %s held", kind, tname, fname, g.mu)})
 }
 
 func (f *FnEnc) replayInfo(results []Val, post *State) *ReplayInfo {
